@@ -407,8 +407,9 @@ TRANSFER_SPECS = {
     'Sign': (('func',), _sign, None),
     'Minimum': (('x', 'y'), min, None),
     'Maximum': (('x', 'y'), max, None),
-    'Add': ('_terms', lambda a, b: a + b, None),
-    'Multiply': ('funcs', lambda a, b: a * b, None),
+    # a list names fields that all hold the operand tuple (Add.funcs and its flattening Add._terms; Multiply.funcs / _factors)
+    'Add': (['_terms', 'funcs'], lambda a, b: a + b, None),
+    'Multiply': (['funcs', '_factors'], lambda a, b: a * b, None),
     'Mod': (('dividend', 'divisor'), lambda a, b: a % b, lambda a, b: b > 0),
     'FloorDivide': (('dividend', 'divisor'), lambda a, b: a // b, lambda a, b: b != 0),
     'NormDim': (('length', 'index'), lambda n, i: i if i >= 0 else i + n, lambda n, i: n >= 1 and -n <= i < n),
@@ -437,7 +438,7 @@ def check_transfer_sound(model, rep, rule='R06.4'):
                 if not vals:
                     continue
                 operands = [Sym(_intbounds=r, dtype=int) for r in ranges]
-                attrs = dict(zip(fields, operands)) if isinstance(fields, tuple) else {fields: tuple(operands)}
+                attrs = dict(zip(fields, operands)) if isinstance(fields, tuple) else {fld_: tuple(operands) for fld_ in fields}
                 base = Sym(_intbounds_impl=lambda: (-inf, inf))
                 ex = MiniExec({'self': Sym(**attrs), 'numpy': numpy_, 'min': min, 'max': max, 'super': (lambda base=base: base), 'int': int, 'bool': bool})
                 try:
